@@ -165,6 +165,9 @@ func (f *function) diffEnv() (bool, string, diff.ValueDiff, error) {
 
 	var reason string
 	switch len(reasons) {
+	case 0:
+		// The environments differ only in keys this version does not know about.
+		reason = "environment"
 	case 1:
 		reason = reasons[0]
 	case 2:
